@@ -525,6 +525,21 @@ func TestC10(t *testing.T) {
 		})
 	}
 
+	rec.Regress(t, func(raw json.RawMessage) *Violation {
+		var c c10Case
+		if json.Unmarshal(raw, &c) != nil {
+			return nil
+		}
+		env.mu.Lock()
+		defer env.mu.Unlock()
+		switch c.Target {
+		case "server":
+			return env.runServer(c)
+		case "size":
+			return runC10Size(c)
+		}
+		return env.runClient(c)
+	})
 	t.Run("grid", func(t *testing.T) {
 		// every built-in x every parameter shape x a few values, one frame per case
 		shapes := []string{"", "null", "[]", "[%s]", "[%s,%s]", "[%s,%s,%s]", `{"id":%s}`, "%s"}
